@@ -392,6 +392,33 @@ zst!(Z16, 16);
 zst!(Z32, 32);
 zst!(Z64, 64);
 
+// zero-sized types WITH a destructor: each value handed to the cache must be destructed exactly
+// once as its own type, whether or not the cache shares the allocation
+thread_local! {
+    static DZ_DROPS: std::cell::RefCell<std::collections::BTreeMap<&'static str, u32>> = const { std::cell::RefCell::new(std::collections::BTreeMap::new()) };
+}
+fn dz_take() -> std::collections::BTreeMap<&'static str, u32> {
+    DZ_DROPS.with(|d| std::mem::take(&mut *d.borrow_mut()))
+}
+macro_rules! dzst {
+    ($name:ident, $align:literal) => {
+        #[repr(align($align))]
+        #[derive(Default)]
+        pub struct $name;
+        static_collect!($name);
+        impl Drop for $name {
+            fn drop(&mut self) {
+                DZ_DROPS.with(|d| *d.borrow_mut().entry(stringify!($name)).or_insert(0) += 1);
+            }
+        }
+    };
+}
+dzst!(DZ1, 1);
+dzst!(DZ4, 4);
+dzst!(DZ8, 8);
+dzst!(DZ16, 16);
+dzst!(DZ64, 64);
+
 #[derive(Collect)]
 #[collect(no_drop)]
 struct ZRoot<'gc, const M: usize> {
@@ -436,7 +463,16 @@ where
         return;
     }
     let mut arena = Arena::<Rootable![ZRoot<'_, M>]>::new(|mc| ZRoot { cache: ZstCache::new(mc), keep: Vec::new() });
+    let _ = dz_take();
     arena.mutate_root(|mc, root| {
+        // three rounds of the destructor-carrying ZSTs (6 values of each type: alloc + alloc_static)
+        for _ in 0..3 {
+            zst_one::<DZ1, M>(rep, &case, mc, root, "DZ1");
+            zst_one::<DZ4, M>(rep, &case, mc, root, "DZ4");
+            zst_one::<DZ8, M>(rep, &case, mc, root, "DZ8");
+            zst_one::<DZ16, M>(rep, &case, mc, root, "DZ16");
+            zst_one::<DZ64, M>(rep, &case, mc, root, "DZ64");
+        }
         zst_one::<Z1, M>(rep, &case, mc, root, "Z1");
         zst_one::<Z2, M>(rep, &case, mc, root, "Z2");
         zst_one::<Z4, M>(rep, &case, mc, root, "Z4");
@@ -485,7 +521,23 @@ where
     if n != 1 {
         rep.viol("M-exact", &case, "convert", format!("{} allocations remain after releasing everything but the cache (expected 1)", n));
     }
+    // by now every destructor-carrying ZST is unreachable: at most once each so far ...
+    let mid = dz_take();
+    for (k, v) in mid.iter() {
+        if *v > 6 {
+            rep.viol("M-once", &case, "convert", format!("{} values of zero-sized {} were handed to the cache but {} destructor runs were seen", 6, k, v));
+        }
+    }
     drop(arena);
+    // ... and exactly once each after the arena is gone
+    let end = dz_take();
+    for k in ["DZ1", "DZ4", "DZ8", "DZ16", "DZ64"] {
+        let n = mid.get(k).copied().unwrap_or(0) + end.get(k).copied().unwrap_or(0);
+        rep.inc("zst_destructor_checks");
+        if n != 6 {
+            rep.viol("M-once", &case, "convert", format!("6 values of zero-sized {} were handed to ZstCache<{}> (alloc / alloc_static) but {} destructor runs were seen over the arena's life", k, M, n));
+        }
+    }
     bad_events(rep, &case, "convert");
     rep.case_done(&case, true, J::obj().set("max_align", M));
 }
